@@ -7,9 +7,9 @@ CHECKS = {
  "C01": ("exploration","history monitor: independent ledger replay vs all pages of get_utxos","4 C01",
          "Held on the executions produced: random fork histories on 3 networks and 3 delivery paths, every address of the case universe (incl. string-prefix twins) queried after every step and compared with a ledger replayed from genesis to the named tip."),
  "C02": ("exploration","history monitor: max-over-all-leaf-paths oracle vs every endpoint's tip","4 C02",
-         "Held on the trees produced (random histories with mock difficulties, heavy-short vs light-long, exact ties): get_blockchain_info, unfiltered get_utxos, get_balance and get_block_headers compared with an independent heaviest-path oracle after every arrival and anchor advance."),
+         "Held on the trees produced (every parent vector with <= 4/5 blocks x {1,2,3}^n difficulties x thresholds 1..3 enumerated; trees constructed to tie on accumulated difficulty with side branches; random histories with mock difficulties): get_blockchain_info, unfiltered get_utxos, get_balance and get_block_headers compared with an independent heaviest-path oracle after every arrival and anchor advance."),
  "C03": ("exploration","history monitor: stability rule evaluated on the model tree at every ingestion opportunity, both directions","4 C03",
-         "Held on the ingestion opportunities produced: the anchor advance of the canister is compared with the rule of the statement (never early, never withheld, new anchor on the served chain, live set = descendants of the anchor); readings the statement leaves open are accepted either way and counted."),
+         "Held on the ingestion opportunities produced (enumerated small trees, constructed ties, random histories, chains of 420-1600 blocks that reach the adaptive depth bound): the anchor advance of the canister is compared with the rule of the statement (never early, never withheld, new anchor on the served chain, live set = descendants of the anchor); readings the statement leaves open are accepted either way and counted."),
  "C04": ("exploration","history monitor: confirmation-cut oracle + ledger at the cut for every (state,address,c)","4 C04",
          "Held on all (state, address, c in 1..len+2) triples of the histories produced, incl. trees where depth and difficulty disagree; closed form H-c+1 asserted on fork-free chains."),
  "C05": ("exploration","differential monitor: get_balance vs sum of all get_utxos pages, query vs update variants","4 C05",
